@@ -106,4 +106,63 @@ def run(chk):
     obs = core.run_harnesses(chk, crate, specs, logdir=os.path.join(core.CACHE, "logs", "C14"))
     rend = {k: v for k, v in renderers().items() if v}
     core.triage(chk, crate, obs, rend, excl_factory=lambda cfgs: kunit.prepare(chk, rustflags=" ".join("--cfg " + c for c in cfgs)))
+    prelude_queries(chk)
     return chk.finish(out_of_claim=OUT)
+
+
+# ---------------------------------------------------------------------------------------------------------------
+# X-smt part: the prelude's abs / sign / gcd / lcm (xray-language source in include.rs) against their definitions
+
+def prelude_queries(chk):
+    from . import xsmt_common as xc
+    from .xsmt_common import xr2smt
+    try:
+        src, fns, structs = xr2smt.load(core.REPO)
+    except xr2smt.Unsupported as e:
+        raise core.Inconclusive("prelude translator: %s" % e)
+    T = xr2smt.Enc.t
+    B = 10 if chk.tier == "quick" else 24
+    qs = []
+
+    def call(enc, name, *vals):
+        env = {"a%d" % i: v for i, v in enumerate(vals)}
+        return enc.call(name, [("var", "a%d" % i) for i in range(len(vals))], env, "true", 0, [])
+    decl = ["(declare-const a Int)", "(declare-const b Int)"]
+    rng = ["(and (>= a %s) (<= a %d) (>= b %s) (<= b %d))" % (T(-B), B, T(-B), B)]
+    enc = xr2smt.Enc(fns, structs, rec_bound=14)
+    ab = call(enc, "abs", "a")
+    sg = call(enc, "sign", "a")
+    qs.append(xc.Q("c14_prelude_abs_sign", enc, decl, rng,
+                   "(and (= %s (ite (>= a 0) a (- a))) (= %s (ite (> a 0) 1 (ite (< a 0) (- 1) 0))))" % (T(ab), T(sg)),
+                   "|a| <= %d" % B, "include.rs: abs, sign"))
+    enc = xr2smt.Enc(fns, structs, rec_bound=8 if chk.tier == "quick" else 10)
+    g = call(enc, "gcd", "a", "b")
+    # g is the gcd: non-negative, divides both (witness quotients), and no larger common divisor up to the bound
+    no_larger = " ".join("(not (and (> %d %s) (= (mod a %d) 0) (= (mod b %d) 0)))" % (d, T(g), d, d) for d in range(2, B + 1))
+    prop = ("(and (>= {g} 0) (=> (and (= a 0) (= b 0)) (= {g} 0)) (=> (not (and (= a 0) (= b 0))) (and (> {g} 0) (= (mod a {g}) 0) (= (mod b {g}) 0) {nl})))"
+            .format(g=T(g), nl=no_larger))
+    qs.append(xc.Q("c14_prelude_gcd", enc, decl, rng, prop, "|a|, |b| <= %d, recursion unrolled 8 (quick) / 10 (thorough) levels (deeper paths excluded and counted)" % B,
+                   "include.rs: gcd (helper), abs"))
+
+    def replay_gcd(model):
+        a, b = model.get("a"), model.get("b")
+        import math
+        lit = lambda v: "(-%d)" % -v if v < 0 else str(v)  # noqa
+        s = "let g = gcd(%s, %s); let s = sign(%s); let m = abs(%s);" % (lit(a), lit(b), lit(a), lit(a))
+        spec = dict(source=s, bindings=["g", "s", "m"])
+        got = core.Native.get().run(spec)
+        if got.get("panic"):
+            return spec, "interpreter panicked: %s" % got["panic"]
+        v = got.get("values", {})
+        if v.get("g") != {"int": str(math.gcd(a, b))}:
+            return spec, "gcd(%d, %d) = %s, expected %d" % (a, b, v.get("g"), math.gcd(a, b))
+        if v.get("m") != {"int": str(abs(a))} or v.get("s") != {"int": str((a > 0) - (a < 0))}:
+            return spec, "abs/sign(%d) = %s / %s" % (a, v.get("m"), v.get("s"))
+        return spec, None
+    tmo = 120 if chk.tier == "quick" else 900
+    for q in qs:
+        if chk.only and not any(o in q.name for o in chk.only):
+            continue
+        ob = xc.discharge(chk, q, tmo, replay_gcd)
+        ob.info["recursion_bound_paths_excluded"] = len(q.enc.bound_hit)
+    chk.assumptions += [a for a in xc.ASSUMPTIONS if a not in chk.assumptions]
